@@ -1010,3 +1010,60 @@ pub fn huge_wisize(cap: usize) -> BoxedStrategy<(WDg<isize>, String)> {
         })
         .boxed()
 }
+
+
+// ---------------------------------------------------------------------------
+// Iterators with chosen, honest size hints
+// ---------------------------------------------------------------------------
+
+/// Wraps an iterator of known length and reports a chosen `size_hint` that
+/// stays honest (lower <= remaining <= upper) after every step.
+pub struct Hinted<I> {
+    inner: I,
+    lo: usize,
+    hi: Option<usize>,
+}
+
+impl<I: Iterator> Iterator for Hinted<I> {
+    type Item = I::Item;
+
+    fn next(&mut self) -> Option<I::Item> {
+        self.lo = self.lo.saturating_sub(1);
+        self.hi = self.hi.map(|h| h.saturating_sub(1));
+        self.inner.next()
+    }
+
+    fn size_hint(&self) -> (usize, Option<usize>) {
+        (self.lo, self.hi)
+    }
+}
+
+/// The honest hints tried for a sequence of `n` items: exact, no information,
+/// a positive lower bound without an upper bound, loose on both sides.
+pub fn honest_hints(n: usize) -> Vec<(usize, Option<usize>)> {
+    let mut v = vec![
+        (n, Some(n)),
+        (0, None),
+        (n.min(1), None),
+        (n / 2, None),
+        (n.saturating_sub(1), None),
+        (n, None),
+        (0, Some(n)),
+        (0, Some(n + 5)),
+        (n / 2, Some(2 * n + 1)),
+        (n.saturating_sub(1), Some(n + 1)),
+    ];
+    v.sort();
+    v.dedup();
+    v
+}
+
+pub fn hinted<T>(items: Vec<T>, hint: (usize, Option<usize>)) -> Hinted<std::vec::IntoIter<T>> {
+    assert!(hint.0 <= items.len() && hint.1.map_or(true, |h| h >= items.len()), "harness: dishonest hint");
+    Hinted { inner: items.into_iter(), lo: hint.0, hi: hint.1 }
+}
+
+/// As `hinted`, but the hint may lie (memory-safety checks only).
+pub fn hinted_any<T>(items: Vec<T>, hint: (usize, Option<usize>)) -> Hinted<std::vec::IntoIter<T>> {
+    Hinted { inner: items.into_iter(), lo: hint.0, hi: hint.1 }
+}
